@@ -346,3 +346,47 @@ def twice_scripts():
                 continue   # known finding animate-in-function
             out.append(HDR + prelude + w.format(a=call))
     return out
+
+
+BOUNDARY_PRELUDE = HDR + """led = Led(13)
+rgb = RGBLed(9, 10, 11)
+sv = Servo(6)
+m = DCMotor(2, 4, 5)
+bz = Buzzer(8)
+lcd = LCD(rs=12, en=11, d4=5, d5=4, d6=3, d7=2, backlight_pin=9)
+"""
+BOUNDARY_LINES = [
+    "lcd.glyph(0, [1, 2, 3, 4, 5, 6, 7])", "lcd.glyph(0, [1, 2, 3, 4, 5, 6, 7, 8, 9])", "lcd.glyph(0, [1, 2, 3, 4, 5, 6, 7, 8, 9, 10])", "lcd.glyph(0, [0] * 16)",
+    "lcd.glyph(0, [])", "lcd.glyph(-1, [0, 0, 0, 0, 0, 0, 0, 0])", "lcd.glyph(8, [0, 0, 0, 0, 0, 0, 0, 0])", "lcd.glyph(7, [32, 255, 256, -1, 0, 0, 0, 0])",
+    "l2 = LCD(i2c_addr=39, cols=0)", "l2 = LCD(i2c_addr=39, rows=0)", "l2 = LCD(i2c_addr=39, cols=80, rows=5)", "l2 = LCD(i2c_addr=39, cols=-16)", "l2 = LCD(i2c_addr=300)", "l2 = LCD(i2c_addr=-1)",
+    "l2 = LCD(rs=1, en=1, d4=1, d5=1, d6=1, d7=1)", "l2 = LCD(rs=12, en=11, d4=5, d5=4, d6=3)", "l2 = LCD()",
+    "lcd.write(-1, 0, \"x\")", "lcd.write(16, 0, \"x\")", "lcd.write(17, 0, \"x\")", "lcd.write(0, -1, \"x\")", "lcd.write(0, 2, \"x\")", "lcd.write(0, 0, \"\")", "lcd.write(0, 0, 5)",
+    "lcd.line(2, \"x\")", "lcd.line(0, \"x\", align=\"CENTER\")", "lcd.line(0, \"x\", align=\"middle\")", "lcd.line(0, \"x\", align=\"\")", "lcd.message(\"a\", \"b\", top_align=\"Right\")",
+    "lcd.progress(0, 5, max_value=0)", "lcd.progress(0, 5, width=0)", "lcd.progress(0, 5, width=-1)", "lcd.progress(0, 5, width=100)", "lcd.progress(0, 500)", "lcd.progress(0, -5)",
+    "lcd.progress(0, 5, style=\"unknown\")", "lcd.progress(0, 5, style=\"\")", "lcd.progress(2, 5)", "lcd.progress(0, 5, label=\"a label much longer than the row\")",
+    "lcd.animate(\"wave\", 0, \"x\")", "lcd.animate(\"SCROLL\", 0, \"x\")", "lcd.animate(\"scroll\", 2, \"x\")", "lcd.animate(\"scroll\", 0, \"x\", speed_ms=0)", "lcd.animate(\"scroll\", 0, \"x\", speed_ms=-5)",
+    "lcd.animate(\"scroll\", 0, \"\")", "lcd.brightness(256)", "lcd.brightness(-1)", "lcd.display(2)", "lcd.backlight(\"on\")",
+    "bz.melody(\"unknown\")", "bz.melody(\"\")", "bz.melody(\"SIREN\")", "bz.melody(\"siren\", tempo=0)", "bz.melody(\"siren\", tempo=-60)", "bz.sweep(100, 200, duration_ms=20, steps=0)",
+    "bz.sweep(100, 200, duration_ms=20, steps=-3)", "bz.sweep(200, 200, duration_ms=0, steps=1)", "bz.beep(times=0)", "bz.beep(times=-1)", "bz.play_tone(0)", "bz.play_tone(-5, 10)", "bz.play_tone(70000)", "b2 = Buzzer(8, default_frequency=0)",
+    "s2 = Servo(7, min_angle=90, max_angle=10)", "s2 = Servo(7, min_angle=10, max_angle=10)", "s2 = Servo(7, min_pulse_us=2000, max_pulse_us=1000)", "s2 = Servo(7, min_pulse_us=0, max_pulse_us=0)",
+    "sv.write(181)", "sv.write(-1)", "sv.write(180.5)", "sv.write_us(543)", "sv.write_us(2401)", "sv.write_us(0)",
+    "q = Led(-1)", "q = Led(\"13\")", "q = Led(\"A0\")", "q = Led(A0)", "q = Led(13.0)", "q = Led(1000)", "q = Led()", "q = Led(True)",
+    "led.set_brightness(256)", "led.set_brightness(-1)", "led.set_brightness(1.5)", "led.blink(10, times=0)", "led.blink(10, times=-1)", "led.blink(-10)", "led.fade_in(step=0)", "led.fade_in(step=-5)",
+    "led.fade_out(step=300)", "led.flash_pattern([])", "led.flash_pattern([256])", "led.flash_pattern([-1])", "led.flash_pattern([1, 0], delay_ms=-1)", "led.flash_pattern(5)",
+    "rgb.set_color(256, 0, 0)", "rgb.set_color(-1, 0, 0)", "rgb.set_color(1.5, 0, 0)", "rgb.fade(1, 2, 3, steps=0)", "rgb.fade(1, 2, 3, steps=-1)", "rgb.fade(1, 2, 3, duration_ms=-1)", "rgb.blink(1, 2, 3, times=0)",
+    "r2 = RGBLed(9, 9, 9)", "r2 = RGBLed(9, 10)", "m.set_speed(2)", "m.set_speed(-2)", "m.ramp(0.5, -1)", "m.run_for(-5, 0.5)", "m.backward(-0.5)", "m2 = DCMotor(2, 2, 2)", "m2 = DCMotor(2, 4)",
+    "u = Ultrasonic(7, 7)", "u = Ultrasonic(7, 8, sensor=\"unknown\")", "u = Ultrasonic(7, 8, sensor=\"\")", "u = Ultrasonic(7)", "p = Potentiometer(3)", "p = Potentiometer(\"D3\")",
+    "p = Potentiometer(\"a0\")", "p = Potentiometer(\"\")", "b = Button(2, on_click=nowhere)", "b = Button(-2)", "b = Button(\"2\")", "m9 = SerialMonitor(0)", "m9 = SerialMonitor(-9600)", "m9 = SerialMonitor(115200.5)",
+    "sleep(-1)", "sleep(1.5)", "sleep(\"5\")", "sleep()", "pin_mode(1, 7)", "pin_mode(-1, OUTPUT)", "digital_write(1, 2)", "analog_write(1, 256)", "analog_write(1, -1)", "x = analog_read(8)", "x = analog_read(-1)", "x = digital_read(\"A0\")",
+]
+
+
+def boundary_scripts():
+    """One call per script whose literal argument sits on or just outside a documented limit (row counts, slots, ranges, names,
+    arities): each is either rejected, or accepted and then has to be a well-formed, compilable sketch like any other."""
+    out = []
+    for n, line in enumerate(BOUNDARY_LINES):
+        out.append(BOUNDARY_PRELUDE + line + "\n")
+        if n % 3 == 0:
+            out.append(BOUNDARY_PRELUDE + "while True:\n    " + line + "\n    sleep(5)\n")
+    return out
